@@ -328,6 +328,11 @@ class MuChannel:
         if num_tx == 1 and signal.ndim == 1:
             signal = np.reshape(signal, (1, -1))
 
+        # One signal per transmitter, checked before any link transmits
+        if np.ndim(signal) < 2 or len(signal) != num_tx:
+            raise ValueError("`signal` must contain the signals of the "
+                             "{0} transmitters".format(num_tx))
+
         for rx in range(num_rx):
             suchannel = su_siso_channels[rx, 0]
             outputs[rx] = suchannel.corrupt_data(signal[0])
@@ -389,6 +394,11 @@ class MuChannel:
 
         if num_tx == 1 and signal.ndim == 1:
             signal = np.reshape(signal, (1, -1))
+
+        # One signal per transmitter, checked before any link transmits
+        if np.ndim(signal) < 2 or len(signal) != num_tx:
+            raise ValueError("`signal` must contain the signals of the "
+                             "{0} transmitters".format(num_tx))
 
         for rx in range(num_rx):
             suchannel = su_siso_channels[rx, 0]
